@@ -16,7 +16,7 @@ import time
 
 VERIF = os.path.dirname(os.path.dirname(os.path.abspath(__file__)))
 REPO = os.environ.get("SA_REPO", "/repo")
-CACHE = os.path.join(VERIF, ".cache")
+CACHE = os.environ.get("SA_CACHE") or os.path.join(VERIF, ".cache")
 DRIVER_DIR = os.path.join(VERIF, "sa", "driver")
 DRIVER = os.path.join(DRIVER_DIR, "target", "release", "sa-driver")
 
